@@ -274,7 +274,8 @@ class Encode(Filter[Iterable[Union[Sequence,Mapping]], Iterable[Union[Sequence,M
         is_dense = isinstance(first_item,Dense)
 
         if not is_dense:
-            encoders = self._encoders
+            #a copy because the fitted encoders are stored in it below (the given mapping belongs to the caller and serves every read)
+            encoders = dict(self._encoders)
         else:
             encoders = {}
             for k,v in self._encoders.items():
